@@ -96,15 +96,15 @@ end Nfpm.Arc
 namespace Nfpm
 open B Path Spec
 
-theorem clean_rooted (t : Bytes) : clean (slash :: t) = slash :: joinWith slash (rcomps (slash :: t)) := by
+theorem clean_rooted_cons (t : Bytes) : clean (slash :: t) = slash :: joinWith slash (rcomps (slash :: t)) := by
   simp [clean, isRooted, rcomps]
 
-theorem rcomps_snoc_slash (t : Bytes) : rcomps (t ++ [slash]) = rcomps t := by
+theorem rcomps_snoc_slash_ (t : Bytes) : rcomps (t ++ [slash]) = rcomps t := by
   unfold rcomps
   rw [splitOn_snoc_sep]
   exact resolve_append_nils true _ 1
 
-theorem hasSuffix_single (s : Bytes) (c : UInt8) : hasSuffix s [c] = (s.getLast? == some c) := by
+theorem hasSuffix_single_ (s : Bytes) (c : UInt8) : hasSuffix s [c] = (s.getLast? == some c) := by
   unfold hasSuffix
   cases h : s.reverse with
   | nil =>
@@ -151,8 +151,8 @@ theorem joinWith_ne_dot (R : List Bytes) (hne : R ≠ []) (h : ∀ c ∈ R, Prop
 theorem asRel_file (R : List Bytes) (hne : R ≠ []) (h : ∀ c ∈ R, Proper c) :
     asRel (slash :: joinWith slash R) = joinWith slash R := by
   unfold asRel toNix
-  rw [clean_rooted, rcomps_of_proper_join R h, trimLeft_join R hne h]
-  simp only [slashS, hasSuffix_single]
+  rw [clean_rooted_cons, rcomps_of_proper_join R h, trimLeft_join R hne h]
+  simp only [slashS, hasSuffix_single_]
   have : ((slash :: joinWith slash R).getLast? == some slash) = false := by
     rw [beq_eq_false_iff_ne]
     obtain ⟨a, t, e, _⟩ := joinWith_head_ne_slash R hne h
@@ -166,10 +166,10 @@ theorem asRel_dir (R : List Bytes) (hne : R ≠ []) (h : ∀ c ∈ R, Proper c) 
     asRel (slash :: joinWith slash R ++ [slash]) = joinWith slash R ++ [slash] := by
   unfold asRel toNix
   rw [show slash :: joinWith slash R ++ [slash] = slash :: (joinWith slash R ++ [slash]) by simp]
-  rw [clean_rooted]
+  rw [clean_rooted_cons]
   rw [show slash :: (joinWith slash R ++ [slash]) = (slash :: joinWith slash R) ++ [slash] by simp]
-  rw [rcomps_snoc_slash, rcomps_of_proper_join R h, trimLeft_join R hne h]
-  simp only [slashS, hasSuffix_single]
+  rw [rcomps_snoc_slash_, rcomps_of_proper_join R h, trimLeft_join R hne h]
+  simp only [slashS, hasSuffix_single_]
   obtain ⟨a, t, e, _⟩ := joinWith_head_ne_slash R hne h
   have hj : joinWith slash R ≠ [] := by rw [e]; simp
   have hd := joinWith_ne_dot R hne h
@@ -209,7 +209,7 @@ theorem asRel_rel_file (R : List Bytes) (hne : R ≠ []) (h : ∀ c ∈ R, Prope
   obtain ⟨a, t, e, ha⟩ := joinWith_head_ne_slash R hne h
   have ht : trimLeft slash (joinWith slash R) = joinWith slash R := by rw [e]; simp [trimLeft, ha]
   rw [ht]
-  simp only [slashS, hasSuffix_single]
+  simp only [slashS, hasSuffix_single_]
   have : ((joinWith slash R).getLast? == some slash) = false := by
     rw [beq_eq_false_iff_ne]; exact joinWith_getLast_ne_slash R hne h
   simp [this]
